@@ -178,7 +178,10 @@ def _child_concurrent() -> int:
         import importlib
         for m in ("semantiva.trace._utils", "semantiva.trace.drivers.jsonl", "semantiva.trace.delta_collector",
                   "semantiva.execution.orchestrator.orchestrator", "semantiva.trace.model"):
-            importlib.import_module(m)
+            try:
+                importlib.import_module(m)
+            except ImportError:
+                pass            # module layout differs: fewer pre-emption points, nothing else
         sched = threads.Scheduler(conc["sched_seed"], targets=CONC_TARGETS, strategy=dict(conc["strategy"], est_steps=4000), max_steps=2_000_000)
         outcomes: dict = {}
 
